@@ -208,7 +208,7 @@ Proof.
   destruct (h_tree o) as [|ols okids] eqn:Eo; [discriminate|].
   destruct (negb (h_depth h =? h_depth o)); [discriminate|].
   destruct (h_tree h) as [|ls kids] eqn:Eh; [discriminate|].
-  destruct (root_valid L leq ls ols []); [|discriminate]. intros E. injection E as <-. cbn.
+  destruct (root_valid L leq ls ols []); [|discriminate]. intros E. injection E as <-. cbn [h_tree h_depth].
   inversion Hw as [|? ? Hl Hk]; subst. inversion Hwo as [|? ? Hlo Hko]; subst.
   split; [|split; [|reflexivity]].
   - rewrite !flatten_node. now apply zip_go_app_gen.
